@@ -71,6 +71,8 @@ DAEMON_PROGS = {"naksplit_bounded"}
 
 def run_native(prog, args, repo, timeout=900):
     bindir = build_daemon_native(repo) if prog in DAEMON_PROGS else build_native(repo)
+    # programs that touch the file system work in a private directory under build/ (created and removed by the program)
+    args = [x.replace("@SANDBOX@", os.path.join(BUILD, "sandbox_%s_%d" % (prog, os.getpid()))) for x in args]
     r = subprocess.run([os.path.join(bindir, prog)] + args, capture_output=True, text=True, timeout=timeout)
     line = (r.stdout.strip().splitlines() or [""])[-1]
     try:
@@ -122,6 +124,10 @@ def replay(ds, repo):
         if d.get("native"):
             if d["program"] == "naksplit_bounded":
                 nrc, out = run_native(d["program"], ["replay", d.get("naks", "")], repo)
+            elif d["program"] == "roundtrip_bounded":
+                nrc, out = run_native(d["program"], ["replay", str(d.get("case", 0)), d.get("tier", "quick")], repo)
+            elif d["program"] == "paths_bounded":
+                nrc, out = run_native(d["program"], ["replay", "@SANDBOX@", d.get("op", ""), d.get("name", ""), d.get("name2", "")], repo)
             elif d["program"] == "checksum_bounded":
                 nrc, out = run_native(d["program"], ["replay", d.get("content", ""), d.get("reads", "")], repo)
             else:
